@@ -469,7 +469,7 @@ def twin_defs(rng, n):
     (A ref to the pair is only generated when the existing twin comes first: a ref takes the FIRST definition, D23.)"""
     out = []
     for i in range(n):
-        size = rng.choice([8, 12, 16, 24, 32, 40, 64])
+        size = rng.choice([8, 16, 24, 32, 40, 64])       # whole bytes: every value below 2^size is a legal reset value
         bo = rng.choice(["LE", "BE"])
         bito = rng.choice([None, "LSB0", "MSB0"])
         vals = rng.sample(range(1, 1 << min(size, 30)), 2)
